@@ -246,6 +246,7 @@ func runC05(c *Ctx) {
 	checkAmfOverlong(c, e, "C05.scalar")
 	// the RTMP command packets are built from these values and advance by Size(): their Size() must be what they marshal
 	checkPacketSizes(c, "C05.size")
+	checkDecodedMembersCounted(c, "C05.consumed")
 }
 
 func onlyUndecided(s []string) []string {
